@@ -210,7 +210,9 @@ inductive Op
   | write (ts : List Tok)
   deriving Repr, Inhabited
 
-inductive Ret | ok | fail | eof
+/-- what the handler returns: nil, an error of its own, `io.EOF`, or (`readErr`) the error of
+its first failed read if there was one (its own error otherwise) -/
+inductive Ret | ok | fail | eof | readErr
   deriving DecidableEq, Repr, Inhabited
 
 structure Prog where
@@ -279,6 +281,10 @@ def firstFrom (as : List Attr) : String :=
 
 def attr (l v : String) : Attr := ⟨⟨"", l⟩, v⟩
 
+/-- value of the first unqualified attribute `l` ("" when absent) -/
+def attrVal (as : List Attr) (l : String) : String :=
+  ((as.find? (fun a => a.name.loc == l && a.name.space == "")).map (·.value)).getD ""
+
 /-- the automatic reply: `stanza.IQ{ID, Type: error, To}.Wrap(stanza.Error{cancel, service-unavailable})` -/
 def defaultReply (id : String) (to : Option String) : List Tok :=
   [ .start ⟨"", "iq"⟩
@@ -329,6 +335,10 @@ def handleInputStream (cfg : Cfg) (rs : RS) (prog : Prog) : Step :=
     match prog.ret with
     | .fail => .stop (some inv) ws1.out (.error .handler)
     | .eof => .stop (some inv) ws1.out (.error .handler)
+    | .readErr =>
+      (match es1.rs.sticky with
+       | some (.err e) => .stop (some inv) ws1.out (.error e)
+       | _ => .stop (some inv) ws1.out (.error .handler))
     | .ok =>
       let needs := isIq n && isRequestTyp typ && !ws1.wrote
       let dflt : Option (List Tok) :=
@@ -365,6 +375,81 @@ def RS.init (inp : List Tok) : RS := { inp := inp, dIn := 0, dOut := 0, sticky :
 def serve (cfg : Cfg) (inp : List Tok) (progs : List Prog) : Out :=
   serveF cfg (inp.length + 1) (RS.init inp) progs
 
+/-! ### the multiplexer in front (C07): what `mux.ServeMux.HandleXMPP` does with an IQ
+
+Only the part of the multiplexer that matters for replies is modelled here (the lookup
+cascades are `Model/Mux.lean`): no top-level patterns; either an IQ handler is registered for
+the wildcard payload of each of the four defined types (`reg`), or nothing is registered. -/
+
+inductive Payload
+  | none                 -- the iq has no child element (only white space)
+  | elem (n : Name)      -- first child element
+  | bad                  -- text, a stream-level construct or a decoder error comes first
+  deriving DecidableEq, Repr
+
+/-- first token of `decl.TrimLeftSpace(xmlstream.Inner(t))` -/
+def firstPayload : List Tok → Payload
+  | [] => .bad
+  | .chars s :: ts => if isWs s then firstPayload ts else .bad
+  | .start n _ :: _ => if n.space == nsStream then .bad else .elem n
+  | .stop n :: _ => if n.space == nsStream then .bad else .none
+  | _ :: _ => .bad
+
+/-- number of `Token` calls `iqRouter` makes before it knows the payload -/
+def payloadReads : List Tok → Nat
+  | .chars s :: ts => if isWs s then payloadReads ts + 1 else 1
+  | _ => 1
+
+def Prog.writesOnly (p : Prog) : Prog :=
+  { p with ops := p.ops.filter fun o => match o with | .write _ => true | .read => false }
+
+def isDefinedIqTyp (t : String) : Bool := isRequestTyp t || isReplyTyp t
+
+/-- `iqFallback`: the request with to/from swapped, type error, service-unavailable -/
+def fallbackReply (n : Name) (id : String) (to frm : Option String) : List Tok :=
+  [ .start ⟨n.space, "iq"⟩
+      ([attr "type" "error"] ++ (match to with | some c => [attr "to" c] | none => [])
+        ++ (match frm with | some c => [attr "from" c] | none => [])
+        ++ (if id != "" then [attr "id" id] else [])),
+    .start ⟨"", "error"⟩ [attr "type" "cancel"],
+    .start ⟨nsStanzas, "service-unavailable"⟩ [],
+    .stop ⟨nsStanzas, "service-unavailable"⟩,
+    .stop ⟨"", "error"⟩,
+    .stop ⟨n.space, "iq"⟩ ]
+
+/-- address attribute as `stanza.NewIQ` reads it: `some none` = absent or empty -/
+def addrOf (cfg : Cfg) (as : List Attr) (l : String) : Option (Option String) :=
+  let v := attrVal as l
+  if v == "" then some none else
+  match cfg.jidCanon v with
+  | some c => some (if c == "" then none else some c)
+  | none => none
+
+/-- the program the session's handler effectively runs when it is a `mux.ServeMux` whose
+stanza namespace is the stream's: `p` is the program of the registered IQ handler -/
+def muxEffective (reg : Bool) (cfg : Cfg) (n : Name) (as : List Attr) (body : List Tok) (p : Prog) : Prog :=
+  if !isStanza n cfg.ns then Prog.nop
+  else if n.loc != "iq" then Prog.nop
+  else
+    match addrOf cfg as "from", addrOf cfg as "to" with
+    | some frm, some to =>
+      let typ := getTyp as
+      let run : Prog :=
+        if reg && isDefinedIqTyp typ then p.writesOnly
+        else if isReplyTyp typ then Prog.nop
+        else { ops := [.write (fallbackReply n (getId as) frm to)], ret := .ok }
+      (match firstPayload body with
+       | .bad => { ops := List.replicate (payloadReads body) .read, ret := .readErr }
+       | .none => if typ == "result" then run else { ops := [], ret := .eof }
+       | .elem _ => run)
+    | _, _ => { ops := [], ret := .fail }
+
+/-- the first element of the input with the from normalisation applied, and the tokens after
+its start tag -/
+def firstElem (cfg : Cfg) : List Tok → Option (Name × List Attr × List Tok)
+  | .start n as :: body => some (n, blankFrom cfg n as, body)
+  | _ => none
+
 /-! ### what the peer sees: top-level elements written -/
 
 /-- split a token list into its top-level elements (text between elements is dropped; an
@@ -389,9 +474,6 @@ def isReplyElem (id : String) : List Tok → Bool
 
 /-- the replies to request `id` among the top-level elements of `ts` -/
 def replies (id : String) (ts : List Tok) : List (List Tok) := (splitTop ts).filter (isReplyElem id)
-
-def attrVal (as : List Attr) (l : String) : String :=
-  ((as.find? (fun a => a.name.loc == l && a.name.space == "")).map (·.value)).getD ""
 
 def hasSU (ts : List Tok) : Bool :=
   ts.any fun t => match t with | .start n _ => n.loc == "service-unavailable" | _ => false
